@@ -323,7 +323,9 @@ def main (args : List String) : IO UInt32 := do
             else if name == "lutquick" then all (Props.lutMatches f p .quick) else false)
           let lutCur := hasRef && (name == "lutnone" || ((name == "wake" || name == "new") && Spec.initUploads p.name)) &&
             dsProgs.all fun (d, a) => Props.lutMatches f p d.refresh a
-          IO.println s!"S {p.name} {name} sleepDeep={sleepDeep} wakeNew={wakeNew} lutSel={lutSel} lutCur={lutCur} resetFirst={all (Props.C11.goodResets true)} resetAny={all (Props.C11.goodResets false)} abs0={show1 s0} abs1={show1 s1} conforms={all (Props.opConforms p (if name.startsWith "lut" then "lut" else if name.startsWith "refresh" then "refresh" else name))}"
+          let keeps := name != "sleep" && name != "new" && name != "wake" && all (Props.keepsModeP p)
+          let estab := (name == "new" || name == "wake") && all (Props.establishesModeP p)
+          IO.println s!"S {p.name} {name} keeps={keeps} estab={estab} sleepDeep={sleepDeep} wakeNew={wakeNew} lutSel={lutSel} lutCur={lutCur} resetFirst={all (Props.C11.goodResets true)} resetAny={all (Props.C11.goodResets false)} abs0={show1 s0} abs1={show1 s1} conforms={all (Props.opConforms p (if name.startsWith "lut" then "lut" else if name.startsWith "refresh" then "refresh" else name))}"
     return 0
   | "e2e" :: rest => do
     -- material for the end-to-end theorems: for every panel / full-frame entry point, from a fresh
